@@ -67,7 +67,9 @@ def _compare_helper (self, other, f, rf):
     else: ov = t(other)._value
     return getattr(self._value, f)(ov)
   except Exception:
-    return getattr(other, rf)(self)
+    # Let Python try the reflected operation itself (calling it by hand
+    # breaks when other is, e.g., a class object)
+    return NotImplemented
 
 
 class _AddrBase (object):
